@@ -254,6 +254,8 @@ pub struct Trace {
     pub src: Vec<(u64, u32)>,
     /// (virtual ms, bytes) of every datagram the SRT client socket received back
     pub client: Vec<(u64, Vec<u8>)>,
+    /// (virtual ms, sequence number, uplink that carried the packet, uplink the NAK was sent back on)
+    pub naks: Vec<(u64, u32, u8, u8)>,
 }
 
 #[derive(Default)]
@@ -263,6 +265,7 @@ struct Logs {
     tx: Vec<TxEv>,
     src: Vec<(u64, u32)>,
     client: Vec<(u64, Vec<u8>)>,
+    naks: Vec<(u64, u32, u8, u8)>,
 }
 
 struct RecvCtl {
@@ -328,6 +331,7 @@ async fn fake_receiver(sock: Arc<UdpSocket>, ctl: Arc<RecvCtl>) {
     let mut registered: std::collections::HashSet<SocketAddr> = Default::default();
     let mut forgot = false;
     let mut data_seen: u32 = 0;
+    let mut nak_count: u32 = 0;
     let mut marker: u32 = 0;
     loop {
         let Ok((n, src)) = sock.recv_from(&mut buf).await else { continue };
@@ -384,8 +388,19 @@ async fn fake_receiver(sock: Arc<UdpSocket>, ctl: Arc<RecvCtl>) {
             RxKind::Data { seq, .. } => {
                 data_seen = data_seen.wrapping_add(1);
                 if o == 1 && ctl.nak_every != 0 && tick >= ctl.nak_from && tick < ctl.nak_to && data_seen % ctl.nak_every == 0 {
-                    logtx(TxKind::Nak(seq));
-                    let _ = sock.send_to(&nak_packet(seq), src).await;
+                    // every second NAK travels back over ANOTHER registered uplink (as a real receiver's may):
+                    // the charge still belongs to the uplink that carried the packet
+                    nak_count += 1;
+                    let other = registered.iter().filter(|a| octet(a.ip()) != o).min_by_key(|a| (octet(a.ip()), a.port())).copied();
+                    let via = if nak_count % 2 == 0 { other.unwrap_or(src) } else { src };
+                    {
+                        let mut l = ctl.logs.lock().unwrap();
+                        l.ord += 1;
+                        let ord = l.ord;
+                        l.tx.push(TxEv { ord, at: now, link: octet(via.ip()), port: via.port(), kind: TxKind::Nak(seq) });
+                        l.naks.push((now, seq, o, octet(via.ip())));
+                    }
+                    let _ = sock.send_to(&nak_packet(seq), via).await;
                 } else {
                     logtx(TxKind::SrtlaAck);
                     let _ = sock.send_to(&create_ack_packet(&[seq]), src).await;
@@ -405,6 +420,8 @@ async fn fake_receiver(sock: Arc<UdpSocket>, ctl: Arc<RecvCtl>) {
             }
             RxKind::Reg2 if n == SRTLA_TYPE_REG2_LEN => match &group {
                 Some(id) if id[..] == pkt[2..] => {
+                    // a re-created uplink socket comes from a new port: the old registration of that uplink is gone
+                    registered.retain(|a| a.ip() != src.ip());
                     registered.insert(src);
                     logtx(TxKind::Reg3);
                     let _ = sock.send_to(&SRTLA_TYPE_REG3.to_be_bytes(), src).await;
@@ -590,7 +607,7 @@ pub fn run(sc: &Scenario) -> Result<Trace, &'static str> {
         };
         r.map(|ticks| {
             let mut l = ctl.logs.lock().unwrap();
-            Trace { ticks, rx: std::mem::take(&mut l.rx), tx: std::mem::take(&mut l.tx), src: std::mem::take(&mut l.src), client: std::mem::take(&mut l.client) }
+            Trace { ticks, rx: std::mem::take(&mut l.rx), tx: std::mem::take(&mut l.tx), src: std::mem::take(&mut l.src), client: std::mem::take(&mut l.client), naks: std::mem::take(&mut l.naks) }
         })
     });
     verif_clock::set(None);
@@ -991,6 +1008,46 @@ pub fn monitors_e2e(trace: &Trace, sc: &Scenario, mon: &mut crate::Mon) {
             if !got.contains_key(m) {
                 mon.fail("C09", "e2e-return-not-relayed", format!("real event loop [{what}]: the receiver's SRT ACK #{m}, sent at {} on uplink 127.0.0.{} (connected and live in the snapshots before and after), never reached the SRT client", t.at, t.link));
             }
+        }
+    }
+
+    // ---- C05: a NAK is charged to the uplink that carried the packet, whichever uplink brought the NAK back. Per
+    // uplink, the loss count the loop reports can have risen (restarts after a reconnect aside) by no more than the
+    // number of NAKs the receiver sent for packets THAT uplink carried, and all uplinks together by no more than
+    // the number of NAKs sent
+    if !trace.naks.is_empty() {
+        mon.count("e2e-scenario-with-naks");
+        if trace.naks.iter().any(|n| n.2 != n.3) {
+            mon.count("e2e-scenario-with-cross-link-naks");
+        }
+        let mut total_rise = 0i64;
+        for o in &links {
+            let mut rise = 0i64;
+            let mut prev: Option<i64> = None;
+            for t in &trace.ticks {
+                match t.links.iter().find(|l| link_of(&l.ip) == *o) {
+                    Some(l) => {
+                        if let Some(p) = prev {
+                            if l.nak_count > p {
+                                rise += l.nak_count - p;
+                            }
+                        }
+                        prev = Some(l.nak_count);
+                    }
+                    None => prev = None,
+                }
+            }
+            let carried = trace.naks.iter().filter(|n| n.2 == *o).count() as i64;
+            total_rise += rise;
+            if rise > carried {
+                mon.fail("C05", "e2e-nak-charged-to-non-carrier", format!("real event loop [{what}]: the loss count of uplink 127.0.0.{o} rose by {rise} over the run, but the receiver sent only {carried} NAK(s) for packets that uplink carried ({} NAKs in all, {} of them returned over another uplink)", trace.naks.len(), trace.naks.iter().filter(|n| n.2 != n.3).count()));
+            }
+        }
+        if total_rise > trace.naks.len() as i64 {
+            mon.fail("C05", "e2e-nak-charged-twice", format!("real event loop [{what}]: loss counts rose by {total_rise} in total for {} NAKs sent", trace.naks.len()));
+        }
+        if total_rise > 0 {
+            mon.count("e2e-scenario-with-nak-charges");
         }
     }
 
